@@ -119,7 +119,7 @@ CLAIMED["C09"] = ("model_checking",
 # harness binaries each claimed property needs (setup builds exactly these)
 BINS = {"C17": ["store"], "C05": ["connmgr", "netdial"], "C06": ["connmgr"], "C10": ["addrbook"],
         "C01": ["noisehs"], "C02": ["noisepipe"], "C03": ["mss"], "C04": ["substream", "reqresp"], "C08": ["svc"], "C13": ["reqresp"],
-        "C14": ["routing"], "C15": ["query"], "C18": ["peerid"], "C19": ["decoders"], "C20": ["bitswap"], "C11": ["notif"], "C12": ["notif"], "C16": ["kadops"], "C07": ["connlife", "svc"], "C09": ["keepalive", "kasvc"]}
+        "C14": ["routing"], "C15": ["query"], "C18": ["peerid"], "C19": ["decoders"], "C20": ["bitswap"], "C11": ["notif"], "C12": ["notif"], "C16": ["kadops"], "C07": ["connlife", "svc", "connunit"], "C09": ["keepalive", "kasvc"]}
 
 NOT_YET = "check not built yet (work in progress, see DESIGN.md build order)"
 NA = {}
